@@ -446,20 +446,20 @@ func ruleFinalize(c *Ctx) *RuleResult {
 	// elapsed time, may kill the parent — a panic out of PopContext — and whatever has not
 	// been released by then is lost with the child's pool
 	if pc := p.Func("runtime", "(*runtimeContextManager).PopContext"); pc != nil && p.Config.Tags != "noquotas" {
-		term := p.Func("runtime", "(*runtimeContextManager).TerminateContext")
+		terms := p.terminators()
 		var rel ssa.Instruction
 		forEachInstr(pc, func(ins ssa.Instruction) {
 			if call, ok := ins.(ssa.CallInstruction); ok && calleeNamed(call, "releaseResources") {
 				rel = ins
 			}
 		})
-		if term == nil || rel == nil {
-			r.broken("anchor unresolved: PopContext's releaseResources call / TerminateContext")
+		if len(terms) == 0 || rel == nil {
+			r.broken("anchor unresolved: PopContext's releaseResources call / a function that panics with a ContextTerminationError")
 		} else {
 			reachesTerm := map[*ssa.Function]bool{}
 			var reach func(f *ssa.Function, depth int) bool
 			reach = func(f *ssa.Function, depth int) bool {
-				if f == term {
+				if terms[f] {
 					return true
 				}
 				if v, ok := reachesTerm[f]; ok {
